@@ -192,8 +192,11 @@ async fn delete_retry(app: &GraphDatabaseService, text: &str, p: Option<P>) {
 }
 
 #[derive(Clone, Copy, Debug, PartialEq)]
-enum Profile { Member, Former, Never, AdminOnly, UserAdminOnly, FormerAdmin, MemberTwoGroups }
-const PROFILES: [Profile; 7] = [Profile::Member, Profile::Former, Profile::Never, Profile::AdminOnly, Profile::UserAdminOnly, Profile::FormerAdmin, Profile::MemberTwoGroups];
+enum Profile { Member, Former, Never, AdminOnly, UserAdminOnly, FormerAdmin, MemberTwoGroups,
+               /// the room has an entry for the EMPTY key (room mutations accept verif_key:""): what an unauthenticated connection presents
+               EmptyUser, EmptyAdmin, EmptyUserAdmin }
+const PROFILES: [Profile; 10] = [Profile::Member, Profile::Former, Profile::Never, Profile::AdminOnly, Profile::UserAdminOnly, Profile::FormerAdmin, Profile::MemberTwoGroups,
+                                 Profile::EmptyUser, Profile::EmptyAdmin, Profile::EmptyUserAdmin];
 
 async fn build_world(tag: u64, profiles: &[Profile], with_data: bool) -> World {
     let path: PathBuf = format!("{}/C08/inst_{}", std::env::var("VERIF_WORK").unwrap_or("/verif/work".into()), tag).into();
@@ -211,6 +214,7 @@ async fn build_world(tag: u64, profiles: &[Profile], with_data: bool) -> World {
         }
     };
     let mut keys = HashMap::new();
+    keys.insert(0u64, vec![]);      // the empty key
     keys.insert(1u64, me.clone());
     keys.insert(2u64, random32().to_vec());
     keys.insert(3u64, random32().to_vec());
@@ -226,9 +230,10 @@ async fn build_world(tag: u64, profiles: &[Profile], with_data: bool) -> World {
         let kh_admin = matches!(prof, Profile::AdminOnly | Profile::FormerAdmin);
         let kh_user = matches!(prof, Profile::Member | Profile::Former | Profile::MemberTwoGroups);
         let kh_uadmin = matches!(prof, Profile::UserAdminOnly);
-        let admin = if kh_admin { "admin:[{verif_key:$me},{verif_key:$kh}]" } else { "admin:[{verif_key:$me}]" };
-        let users1 = if kh_user { "users:[{verif_key:$kh},{verif_key:$k3}]" } else { "users:[{verif_key:$k3}]" };
-        let ua1 = if kh_uadmin { "user_admin:[{verif_key:$kh}]" } else { "" };
+        p.add("k0", b64(&w.keys[&0])).unwrap();
+        let admin = if kh_admin { "admin:[{verif_key:$me},{verif_key:$kh}]" } else if *prof == Profile::EmptyAdmin { "admin:[{verif_key:$me},{verif_key:$k0}]" } else { "admin:[{verif_key:$me}]" };
+        let users1 = if kh_user { "users:[{verif_key:$kh},{verif_key:$k3}]" } else if *prof == Profile::EmptyUser { "users:[{verif_key:$k0},{verif_key:$k3}]" } else { "users:[{verif_key:$k3}]" };
+        let ua1 = if kh_uadmin { "user_admin:[{verif_key:$kh}]" } else if *prof == Profile::EmptyUserAdmin { "user_admin:[{verif_key:$k0}]" } else { "" };
         let grp2 = if two { r#",{ name:"g2" rights:[{entity:"ns.Pet" mutate_self:true mutate_all:false}] users:[{verif_key:$kh}] }"# } else { "" };
         let text = format!(r#"mutate {{ sys.Room{{ {} authorisations:[{{ name:"g1" rights:[{{entity:"*" mutate_self:true mutate_all:true}}] {} {} }}{}] }} }}"#, admin, users1, ua1, grp2);
         let res = mutate_retry(&w.app, &text, Some(p)).await.unwrap();
@@ -239,10 +244,13 @@ async fn build_world(tag: u64, profiles: &[Profile], with_data: bool) -> World {
         if two { groups.push((g2, auths[1].node_to_mutate.id)); }
         let mut evs = vec![Ev::Admin(1, d, true)];
         if kh_admin { evs.push(Ev::Admin(2, d, true)); }
+        if *prof == Profile::EmptyAdmin { evs.push(Ev::Admin(0, d, true)); }
         evs.push(Ev::Group(g1)); evs.push(Ev::Right(g1, 0, d, true, true));
         if kh_user { evs.push(Ev::User(g1, 2, d, true)); }
+        if *prof == Profile::EmptyUser { evs.push(Ev::User(g1, 0, d, true)); }
         evs.push(Ev::User(g1, 3, d, true));
         if kh_uadmin { evs.push(Ev::UAdmin(g1, 2, d, true)); }
+        if *prof == Profile::EmptyUserAdmin { evs.push(Ev::UAdmin(g1, 0, d, true)); }
         if two { evs.push(Ev::Group(g2)); evs.push(Ev::Right(g2, 2, d, true, false)); evs.push(Ev::User(g2, 2, d, true)); }
         w.rooms.push(RoomInfo { id: room_id, groups, evs, snapshot: None });
         let snap = w.await_room_event(&room_id).await;
@@ -504,7 +512,7 @@ fn gen_session(rng: &mut Rng, w: &World, len: usize) -> Vec<(i64, OEv)> {
     let mut t = BASE + rng.range(0, 5) * 1000;
     let mut evs = vec![];
     let nrooms = w.rooms.len() as u64;
-    let bind_at = if rng.chance(1, 8) { len } else { rng.below(4) as usize };
+    let bind_at = if rng.chance(1, 5) { len } else { rng.below(4) as usize };      // one connection in five never proves a key
     let ready_at = if rng.chance(1, 10) { len } else { rng.below(4) as usize };
     let mut last_defined: Option<u64> = None;
     for i in 0..len {
@@ -516,7 +524,7 @@ fn gen_session(rng: &mut Rng, w: &World, len: usize) -> Vec<(i64, OEv)> {
         else if roll < 82 {
             let r = 1 + rng.below(nrooms);
             let g = 10 * r + 1;
-            let k = if rng.chance(4, 5) { 2 } else { 3 };
+            let k = match rng.below(10) { 0..=6 => 2, 7..=8 => 3, _ => 0 };
             let b = rng.chance(1, 2);
             // sometimes an entry dated before the last one of that key (refused by add_*)
             let d = if rng.chance(1, 12) { BASE - 3 * DAY + rng.range(0, 1000) } else { t };   // after every room was created: the instance's key is admin at that date
@@ -525,7 +533,9 @@ fn gen_session(rng: &mut Rng, w: &World, len: usize) -> Vec<(i64, OEv)> {
             if d != t { evs.push((d, OEv::Define(r, ev))); continue; }
             OEv::Define(r, ev)
         }
-        else if roll < 94 { OEv::DefChanged(match last_defined { Some(r) if rng.chance(3, 4) => r, _ => 1 + rng.below(nrooms) }) }
+        // LocalPeerService::start enters its loop (where definition events are handled) only after the handshake has stored the key
+        else if roll < 94 && i > bind_at { OEv::DefChanged(match last_defined { Some(r) if rng.chance(3, 4) => r, _ => 1 + rng.below(nrooms) }) }
+        else if roll < 94 { OEv::Query(Qry::RoomList) }
         else if roll < 97 { OEv::Ready(rng.chance(2, 3)) }
         else { OEv::Query(Qry::RoomList) };
         evs.push((t, e));
@@ -596,6 +606,24 @@ async fn main() {
       let evs = vec![OEv::Bind, OEv::Ready(true), OEv::Query(Qry::RoomList), OEv::Query(Qry::Fingerprint), OEv::Query(Qry::Nodes(1, vec![1, 2])), OEv::DefChanged(2), OEv::Query(Qry::Nodes(2, vec![4, 5]))];
       let (coq, s) = run_session(&mut w, 3, &stamp(evs, BASE + 100_000)).await;
       push_case(&mut out, "directed-other-key", coq, s, &profs); finish(w).await; }
+
+    // ---- directed: rooms with an entry for the EMPTY key; a connection that never proves a key but is (wrongly) marked ready
+    //      asks for the room list first, then for everything: nothing may be served before a key is proven ----
+    { tag += 1;
+      let profs = [Profile::EmptyUser, Profile::EmptyAdmin, Profile::EmptyUserAdmin, Profile::Member];
+      let mut w = build_world(tag, &profs, true).await;
+      w.refresh_tables().await;
+      let all: Vec<u64> = (1..=w.nodes.len() as u64).collect();
+      let mut evs = vec![OEv::Query(Qry::RoomList), OEv::Ready(true), OEv::Query(Qry::RoomList)];
+      for r in 1..=4u64 { evs.extend(all_room_kinds(r, day9 + (r as i64 - 1) * 10)); evs.push(OEv::Query(Qry::Nodes(r, all.clone()))); evs.push(OEv::Query(Qry::Edges(r, all.iter().map(|n| (*n, 0)).collect()))); }
+      evs.push(OEv::Define(1, Ev::User(11, 0, BASE + 200_000, false))); evs.push(OEv::Query(Qry::RoomList)); evs.push(OEv::Query(Qry::Nodes(1, all.clone())));
+      let (coq, s) = run_session(&mut w, 2, &stamp(evs, BASE)).await;
+      push_case(&mut out, "directed-unauthenticated-ready-empty-key-rooms", coq, s, &profs);
+      // the same rooms for a connection that does prove a key
+      let mut evs = vec![OEv::Bind, OEv::Ready(true), OEv::Query(Qry::RoomList)];
+      for r in 1..=4u64 { evs.push(OEv::Query(Qry::Nodes(r, all.clone()))); evs.push(OEv::DefChanged(r)); evs.push(OEv::Query(Qry::Nodes(r, all.clone()))); }
+      let (coq, s) = run_session(&mut w, 2, &stamp(evs, BASE + 400_000)).await;
+      push_case(&mut out, "directed-authenticated-empty-key-rooms", coq, s, &profs); finish(w).await; }
 
     // ---- generated connections ----
     let worlds = scale(14, 150);
